@@ -30,7 +30,10 @@ func init() {
 			// Unpack accepts what Pack wrote also where the destination is a link to the directory to fill
 			aliasRuleFiltered(ruleC01Walk, "C01.walk", "C05.walked", 1, func(o Oblig) bool { return strings.Contains(o.Key, "below the destination") }),
 			// an out-of-tree link is refused or copied, never left out without a word
-			aliasRule(ruleC02Omit, "C02.omit", "C05.omit", 3)},
+			aliasRule(ruleC02Omit, "C02.omit", "C05.omit", 3),
+			aliasRuleFiltered(ruleC01Guards, "C01.guards", "C05.nametest", 1, func(o Oblig) bool {
+				return strings.Contains(o.Key, "containment") || strings.Contains(o.Key, "success return")
+			})},
 		NotDecided: []string{
 			"content equality of dereferenced copies",
 			"behaviour of links that are in-tree on disk but whose targets are replaced during the walk",
